@@ -74,10 +74,19 @@ def w_slim(ctx, rng, idx):
         single = [clone(s0) for _ in range(d)]
         two = [clone(t0) for _ in range(len(two))]
         for _ in range(int(rng.integers(0, 3))):
-            if rng.random() < 0.5:
+            u = rng.random()
+            if u < 0.35:
                 single[int(rng.integers(0, d))] = rand_single(rng, m0)
-            else:
+            elif u < 0.7:
                 two[int(rng.integers(0, len(two)))] = rand_two(rng, m0, m0)
+            else:
+                # a defect that is *nearly* the bulk: the same reactions with rates that differ in the 5th-8th digit (a slowly varying
+                # rate field); equal for every tolerance-based comparison, different for the generator
+                q = 1.0 + float(10 ** rng.uniform(-7.5, -4)) * (1 if rng.random() < 0.5 else -1)
+                if rng.random() < 0.5 and s0:
+                    single[int(rng.integers(0, d))] = [[r[0], r[1], r[2] * q] for r in s0]
+                elif t0:
+                    two[int(rng.integers(0, len(two)))] = [[r[0], r[1], r[2], r[3], r[4] * q] for r in t0]
     thr = [0, 1e-12][int(rng.integers(0, 2))]
     ctx.describe({'op': 'slim_mme', 'state_space': ss, 'cyclic': cyc, 'threshold': thr, 'single': single, 'two': two})
     if rng.random() < 0.25:
